@@ -169,11 +169,11 @@ func checkC09(c *Ctx, r *Report) {
 	}
 	r.Count("verdict_branches", verdicts)
 	r.Floor("positive_controls", 3)
-	r.Floor("text_amd64", 15)
-	r.Floor("text_arm64", 12)
-	r.Floor("instructions", 20000)
-	r.Floor("cond_branches", 100)
-	r.Floor("mem_operands", 1200)
+	r.Floor("text_amd64", 8)
+	r.Floor("text_arm64", 6)
+	r.Floor("instructions", 8000)
+	r.Floor("cond_branches", 40)
+	r.Floor("mem_operands", 500)
 	if verdicts > 1 {
 		r.Viol("VERDICT-BRANCH", "count", "-", fmt.Sprintf("%d verdict branches; exactly one (Open's tag match) is allowed", verdicts))
 	}
